@@ -346,6 +346,10 @@ type Scenario struct {
 	// Real, when set, is a real deliverer (e.g. HTTPDeliverer); its results are
 	// recorded and compared with what Script says the target answers.
 	Real dispatcher.Deliverer
+	// Oracle, when set, is the per-target configuration the oracle judges by
+	// (derived independently from the configuration text); Routes is what the
+	// dispatcher under test was handed.
+	Oracle []dispatcher.RouteConfig
 	// AfterRun, when set, receives the recorded events after the oracle ran.
 	AfterRun func(evs []Event)
 }
@@ -621,7 +625,11 @@ func evaluate(c *vlib.Ctx, sc Scenario, h *vlib.Handle, rec *RecStore) {
 		}
 	}
 	for _, m := range sc.Messages {
-		tc, okT := targetCfg(sc.Routes, m.Route, m.Target)
+		judgeBy := sc.Routes
+		if sc.Oracle != nil {
+			judgeBy = sc.Oracle
+		}
+		tc, okT := targetCfg(judgeBy, m.Route, m.Target)
 		if !okT {
 			continue
 		}
